@@ -114,6 +114,18 @@ def check_composite(w, comp, when):
             ctx.fail("composite_equals_concatenation", f"{when}: composite.{ft.value} = {got.tolist()} but hstack of parts = {cat.tolist()}", level=ft.value)
         if list(comp.column_names[ft]) != want_cols[ft]:
             ctx.fail("composite_column_names", f"composite.column_names[{ft.value}] = {list(comp.column_names[ft])}, expected {want_cols[ft]}")
+    # the same content through the other public views (checked every few calls: pandas is slow)
+    if (len(w.model.hist) + len(parts)) % 4 == 0:
+        dims = comp.feature_dimensions  # (feature_sizes is not consulted: nothing in the statement defines it for composites)
+        frames = comp.features_as_dataframe
+        for ft in want:
+            got = comp.features[ft]
+            if tuple(dims[ft]) != got.shape:
+                ctx.fail("composite_column_names", f"{when}: feature_dimensions[{ft.value}] = {dims[ft]}, the matrix has shape {got.shape}", view="dimensions")
+            df = frames[ft]
+            if list(df.columns) != want_cols[ft] or df.shape != got.shape or not np.array_equal(df.to_numpy(), got, equal_nan=True):
+                ctx.fail("composite_column_names", f"{when}: features_as_dataframe[{ft.value}] has columns {list(df.columns)} shape {df.shape}; matrix shape {got.shape}, columns {want_cols[ft]}", view="dataframe")
+        ctx.probe("composite_views_checked")
     w.ctx.probe("composite_checked")
 
 
